@@ -1230,3 +1230,50 @@ def rule_complete(env, shared):
             out.append(Ob("COMPLETE", key, "viol", u.body.file_line(), "cannot find the clamped extent of the %s pull of %s" % (
                 u.kind, u.world["name"])))
     return out
+
+
+# ---------------------------------------------------------------------------------------------------
+def rule_ctor(env, shared):
+    """CLAMP.ctor: the length a consuming implementor captures in a field is the length of the very collection it stores
+    (this justifies treating `stored.len()` and the field as one LEN), and nothing but constructors writes that field."""
+    out = []
+    R, F, ev = env.R, env.F, env.ev
+    for adt, r in R.impl.items():
+        if r["kind"] != "known":
+            continue
+        lt = r.get("len_term")
+        if lt is None or lt[0] != "field":
+            continue  # LEN is a constant or computed from immutable bounds on every call
+        lidx = lt[2]
+        nm = r["name"]
+        store_idx = [i for i in r.get("cell_fields", [])]
+        n = 0
+        for b in F.non_test_bodies():
+            ctx = env.ctx(b, F.impl_self_adt(b), None)
+            for bi, blk in enumerate(b.blocks):
+                for s in blk["stmts"]:
+                    if s["k"] != "assign":
+                        continue
+                    rv = s["rv"]
+                    if rv["k"] == "aggregate" and rv.get("ak") == "adt" and adt == rv["adt"].replace("core::", "std::"):
+                        n += 1
+                        ops = [unref(ev.operand(ctx, o)) for o in rv["ops"]]
+                        lenop = ops[lidx]
+                        k = "CLAMP.ctor|%s|%s" % (nm, env.fname(b))
+                        good = False
+                        if lenop[0] == "call" and lenop[1] == "len" and store_idx:
+                            src = unref(lenop[2][0])
+                            st = ops[store_idx[0]]
+                            # the stored value wraps the same object
+                            good = any(x == src or unref(x) == src for x in subterms(st))
+                        out.append(Ob("CLAMP.ctor", k, "ok" if good else "viol", b.file_line(s["loc"]),
+                                      "captured length is len() of the collection moved into the storage" if good else
+                                      "%s captures a length (%s) that is not the length of the collection it stores: bounds "
+                                      "checks against it do not protect the storage" % (nm, fmt(lenop)[:80]), True))
+                    pl = s["place"]
+                    if pl["p"] and pl["p"][-1]["k"] == "field" and pl["p"][-1].get("adt") == adt and pl["p"][-1]["i"] == lidx:
+                        out.append(Ob("CLAMP.ctor", "CLAMP.ctor|%s|%s|writer" % (nm, env.fname(b)), "viol", b.file_line(s["loc"]),
+                                      "the captured length of %s is overwritten outside its constructor" % nm))
+        if n == 0:
+            out.append(Ob("CLAMP.ctor", "CLAMP.ctor|%s|none" % nm, "viol", "-", "no constructor of %s found" % nm))
+    return out
